@@ -92,7 +92,13 @@ def check_spec(case):
                     outsets.append([[b, s, r, c, r2, c2]])
         for outs in case.get('outsets', []):
             outsets.append(outs)
+        heavy = any(f.startswith('form:wholecol') for f in G.features_of(spec))  # 2^20-row operands: free each partial model before the next
+        m = None
         for outs in outsets:
+            if heavy:
+                import gc
+                m = None
+                gc.collect()
             keys = [(b, s, r, c) for (b, s, r1, c1, r2, c2) in outs for r in range(r1, r2 + 1) for c in range(c1, c2 + 1)]
             keys = [k for k in keys if k in pop]
             if not keys:
@@ -210,6 +216,6 @@ def parts(tier, seed):
     q = tier == 'quick'
     return [
         ('hyp', 'specs', 192 if q else 4000, 6),
-        ('hyp', 'wholecol', 4 if q else 160, 1),
+        ('hyp', 'wholecol', 4 if q else 160, 1, {'nproc': 6}),
         ('enum', 'multi-array', _multi_array_specs(), 1, False),
     ]
